@@ -45,6 +45,9 @@ type Snap struct {
 	Offsets map[string]string    `json:"offsets"` // commitKey -> "offset/epoch/meta" or "none"
 	Txns    []txnState           `json:"txns"`
 	Probes  []string             `json:"probes"` // "code/base" per model probe (dup, gap)
+	// Cfgs: topic -> explicitly set (dynamic topic) configuration as DescribeConfigs
+	// shows it, canonical "k=v,..."; topics with nothing set have no entry.
+	Cfgs map[string]string `json:"cfgs,omitempty"`
 }
 
 // splitBatches splits concatenated RecordBatch bytes and validates every batch
@@ -170,8 +173,22 @@ func snapshot(n *node, m *Model, withProbes bool) (*Snap, error) {
 		}
 	}
 	ids := map[string][16]byte{}
+	var names []string
 	for _, t := range s.Topics {
 		ids[t.Name] = t.ID
+		names = append(names, t.Name)
+	}
+	cfgs, err := n.topicConfigs(names)
+	if err != nil {
+		return nil, err
+	}
+	for t, c := range cfgs {
+		if c != "" {
+			if s.Cfgs == nil {
+				s.Cfgs = map[string]string{}
+			}
+			s.Cfgs[t] = c
+		}
 	}
 	for _, k := range m.commitKeys() {
 		g, t, p := splitCommitKey(k)
@@ -218,6 +235,9 @@ func snapshot(n *node, m *Model, withProbes bool) (*Snap, error) {
 // diffSnap returns "" if equal, else a description of the first difference.
 func diffSnap(a, b *Snap) string {
 	if d := diffJSON("topics", a.Topics, b.Topics); d != "" {
+		return d
+	}
+	if d := diffJSON("explicitly set topic configurations (DescribeConfigs)", a.Cfgs, b.Cfgs); d != "" {
 		return d
 	}
 	keys := map[string]bool{}
@@ -354,6 +374,34 @@ func checkCrash(m *Model, fs *crashfs.FS, k int) (out outcome, err error) {
 		if !ok {
 			return out, violf("topic %q has %d partitions after restart; it only ever had %v", t.Name, t.Parts, th.Counts)
 		}
+	}
+	// topic configuration: what DescribeConfigs shows as explicitly set on a topic
+	// is the state after one of the workload's configuration changes, and not an
+	// older one than the last change acknowledged at index <= k
+	for _, t := range s.Topics {
+		got, hist := s.Cfgs[t.Name], m.Cfgs[t.Name]
+		last := -1
+		for i, c := range hist {
+			if c.Ack <= k {
+				last = i
+			}
+		}
+		ok := last < 0 && got == m.CfgBase[t.Name]
+		for i := max(last, 0); i < len(hist) && !ok; i++ {
+			// a later change can only show if its request was sent before the stop
+			ok = (i == last || hist[i].Sent < k) && got == hist[i].After
+		}
+		if ok {
+			continue
+		}
+		older := last >= 0 && got == m.CfgBase[t.Name]
+		for i := 0; i < last; i++ {
+			older = older || got == hist[i].After
+		}
+		if older {
+			return out, violf("acknowledged configuration change lost: topic %q shows the explicitly set configuration {%s} after restart, but %s was acknowledged at op index %d <= %d and makes it {%s} (changes of this topic: %+v)", t.Name, got, hist[last].What, hist[last].Ack, k, hist[last].After, hist)
+		}
+		return out, violf("topic %q shows the explicitly set configuration {%s} after restart, which no acknowledged or in-flight configuration change of the workload produces (before the changes: {%s}; changes of this topic: %+v)", t.Name, got, m.CfgBase[t.Name], hist)
 	}
 	for name, th := range m.Topics {
 		need := int32(0)
